@@ -160,3 +160,65 @@ def u_b_phenotype(ctx):
     if ctx.tier == "thorough":
         shapes += [(3, 2, (2, 2), True), (3, 2, (1, 2), False)]
     modeb.run_shapes(ctx, "phenotype", shapes, body)
+
+
+TP = "pybrops/breed/prot/pt/TruePhenotyping.py"
+
+
+@unit(P, "B[TruePhenotyping.phenotype: one record per taxon == the bound model's true genotypic value (gegv), labels carried, no noise]",
+      "B", bounded=True, targets=[TP + ":TruePhenotyping.phenotype"],
+      note="bounded(shape): ntaxa<=3, ntrait<=2, labelled or not; genotypic values symbolic; the model stub answers gegv and gebv with "
+           "different value matrices (a model with non-additive effects)")
+def u_b_true(ctx):
+    f = loopcut.Extracted(TP + ":TruePhenotyping.phenotype", overrides={"check_is_PhasedGenotypeMatrix": lambda *a: None})
+
+    def body(e, shape, tag):
+        n, t, labelled = shape
+        G = barr.fresh("g", (n, t), "float64")          # true genotypic values
+        B = barr.fresh("b", (n, t), "float64")          # breeding values of the same individuals: a different matrix in general
+        taxa = numpy.array(["L%d" % i for i in range(n)], dtype=object) if labelled else None
+        grp = numpy.arange(n, dtype="int64") + 7 if labelled else None
+        trait = numpy.array(["y%d" % k for k in range(t)], dtype=object) if labelled else None
+        pgtok = object()
+        calls = []
+
+        def mkgv(M):
+            class GV:
+                ntaxa, ntrait = n, t
+                taxa_grp = grp
+
+                def unscale(self):
+                    return M
+            GV.taxa, GV.trait, GV.mat = taxa, trait, M
+            return GV()
+
+        class GP:
+            def gegv(self, pg, *a, **kw):
+                calls.append(("gegv", pg))
+                return mkgv(G)
+
+            def gebv(self, pg, *a, **kw):
+                calls.append(("gebv", pg))
+                return mkgv(B)
+
+        from pybrops.breed.prot.pt.TruePhenotyping import TruePhenotyping as _Real
+        me = loopcut.stub_of(_Real)
+        me.gpmod = GP()
+        fr = modeb.Frame(g=G)
+        df = f(me, pgtok)
+        e.prove(tag + ":one-record-per-taxon", len(df) == n)
+        cols = [str(c) for c in df.columns]
+        lab = ["taxa", "taxa_grp"] if labelled else ["taxa"]
+        e.prove(tag + ":columns", cols[:len(lab)] == lab and len(cols) == len(lab) + t
+                and (not labelled or cols[len(lab):] == [str(c) for c in trait]))
+        ok = len(df) == n and len(cols) == len(lab) + t
+        for i in range(n if ok else 0):
+            if labelled:
+                e.prove(tag + ":row%d:labels" % i, df.iloc[i, 0] == taxa[i] and int(df.iloc[i, 1]) == int(grp[i]))
+            for k in range(t):
+                e.prove(tag + ":row%d:trait%d == true genotypic value of taxon %d (no noise)" % (i, k, i),
+                        R(df.iloc[i, len(lab) + k]) == R(G[i, k]))
+        e.prove(tag + ":frame:genotypic-values-not-written", fr.unchanged())
+        e.prove(tag + ":canary:phenotype-is-the-breeding-value", R(df.iloc[0, len(lab)]) == R(B[0, 0]) if ok else False, expect="fail", timeout_ms=2000)
+        return "ok"
+    modeb.run_shapes(ctx, "true", [(1, 1, False), (2, 2, True), (3, 1, True), (2, 1, False)], body)
